@@ -63,6 +63,18 @@ let akind_of = function
 let rec content_of_sx (x : Sx.t) : content =
   match x with
   | L [A "np"; A dt; sh; L data] -> Numpy (dtype_of dt, zs_of_sx sh, List.map datum_of_sx data)
+  | L [A "nps"; A dt; sh; st; off; L data] ->
+    (* a strided view (strides and offset in items): the model sees the logical, contiguous array.
+       Strides are physical layout, not value: reading them away here is part of the (trusted) reader. *)
+    let ints x = List.map small_int_of_z (zs_of_sx x) in
+    let arr = Array.of_list data in
+    let rec idx dims strs base =
+      match dims, strs with
+      | [], [] -> [base]
+      | d :: ds, s :: ss -> List.concat (List.init d (fun i -> idx ds ss (base + i * s)))
+      | _ -> bad "nps: shape/strides mismatch" in
+    let pick i = if i < 0 || i >= Array.length arr then bad "nps: outside the buffer" else datum_of_sx arr.(i) in
+    Numpy (dtype_of dt, zs_of_sx sh, List.map pick (idx (ints sh) (ints st) (small_int_of_z (z_of_sx off))))
   | L [A "empty"] -> Empty
   | L [A "lo"; A w; o; c] -> ListOffset (width_of w, zs_of_sx o, content_of_sx c)
   | L [A "la"; A w; s; e; c] -> ListA (width_of w, zs_of_sx s, zs_of_sx e, content_of_sx c)
